@@ -816,8 +816,60 @@ var ProfileC20 = &Profile{
 // c10ExtraOps: "every successful open or consolidating re-open leaves the position healthy". Now and then the
 // price of a position's asset crashes and, in the same block (before any sweep can run), its owner re-opens on
 // top of it with a small collateral and leverage 1 (leveragelp) or 0 / just above 1 (perpetual) – an increment that borrows nothing and is harmless by itself.
+// c10SweepAfterPoolChange: on a pool that carries leveraged-LP positions *and* perpetual positions, somebody makes a
+// small change to the pool (a single-sided dust join – every amm change runs the hooks that refresh the pool's
+// valuation) and, in the same block, the bot asks for the liquidation and the stop-loss close of every leveraged-LP
+// position there is. Healthy, untriggered positions must come out of that untouched.
+func c10SweepAfterPoolChange(h *History, g *G) []*Op {
+	s := g.S
+	if len(s.LPPositions) == 0 || len(s.MTPs) == 0 || g.Busy[h.W.Bot.Addr.String()] {
+		return nil
+	}
+	pool := s.Pool(s.LPPositions[0].AmmPoolId)
+	if pool == nil {
+		return nil
+	}
+	var joiner *Account
+	owners := map[string]bool{}
+	for _, p := range s.LPPositions {
+		owners[p.Address] = true
+	}
+	for _, a := range h.W.Accounts {
+		if !owners[a.Addr.String()] && !g.Busy[a.Addr.String()] {
+			joiner = a
+		}
+	}
+	if joiner == nil {
+		return nil
+	}
+	msg := &lptypes.MsgClosePositions{Creator: h.W.Bot.Addr.String()}
+	for _, p := range s.LPPositions {
+		if p.AmmPoolId != pool.PoolId {
+			continue
+		}
+		g.Busy[p.Address] = true // named owners send nothing in this block
+		msg.Liquidate = append(msg.Liquidate, &lptypes.PositionRequest{Address: p.Address, Id: p.Id})
+		if !p.StopLossPrice.IsNil() && p.StopLossPrice.IsPositive() {
+			msg.StopLoss = append(msg.StopLoss, &lptypes.PositionRequest{Address: p.Address, Id: p.Id})
+		}
+	}
+	g.Busy[joiner.Addr.String()], g.Busy[h.W.Bot.Addr.String()] = true, true
+	d := pool.PoolAssets[g.Pick("c10/dustdenom", len(pool.PoolAssets))].Token.Denom
+	h.Labels["c10-sweep-after-pool-change"]++
+	return []*Op{
+		{Signer: joiner, Kind: "c10.dust_join", Msg: &ammtypes.MsgJoinPool{Sender: joiner.Addr.String(), PoolId: pool.PoolId,
+			MaxAmountsIn: sdk.NewCoins(sdk.NewCoin(d, sdkmath.NewInt(int64(g.Int("c10/dust", 1_000, 5_000_000))))), ShareAmountOut: sdkmath.OneInt()}},
+		{Signer: h.W.Bot, Kind: "c10.sweep_all_lp", Msg: msg},
+	}
+}
+
 func c10ExtraOps(h *History, g *G) []*Op {
 	s := g.S
+	if g.Int("c10/sweep?", 0, 4) == 0 {
+		if ops := c10SweepAfterPoolChange(h, g); ops != nil {
+			return ops
+		}
+	}
 	if g.Int("c10/reopen?", 0, 3) != 0 {
 		return nil
 	}
